@@ -107,6 +107,10 @@ func (w *world) stepHeight(forceTxs int) {
 			w.authAttack(g)
 		}
 	}
+	if (c.Prop == "C07" || c.Prop == "C03" || c.Prop == "C11" || c.Prop == "C04") && t.Chance(1, 3) {
+		// the last arrival before the proposal is built pays the highest fee and fails in its handler
+		w.submit(w.genFailingTx(ups[0]))
+	}
 	if c.Prop == "C05" && t.Chance(1, 2) {
 		w.authCombo([]*genTx{w.genTx(ups[0]), w.genTx(ups[0]), w.genTx(ups[0]), w.genTx(ups[0])})
 	}
@@ -265,6 +269,12 @@ func (w *world) abandonProposal(ups []*node) {
 }
 
 func (w *world) honestRejected(r *node, pr *proposal, stage string, err error) {
+	if w.c.Prop == "C07" && err != nil && strings.Contains(err.Error(), "unequal block hash") {
+		// the proposer built the block while failing / surplus transactions were executed and rolled back next
+		// to it; a replica that executes only the block's transactions on the same prefix gets another result
+		w.c.ReportFor("C07", "atomicity", "block-not-reproducible-from-its-transactions",
+			fmt.Sprintf("%s at %s: executing the %d transactions of the block %s built for height %d on the same prefix gives a different header (rolled-back work left a trace in the proposer's result)", r.name, stage, len(pr.block.Transactions), w.nodes[pr.proposer].name, pr.block.BlockHeader.Height))
+	}
 	if w.c.Prop == "C03" && err != nil && strings.Contains(err.Error(), "unequal block hash") {
 		// the replica executed the same block on the same prefix and computed another header than the proposer
 		w.c.ReportFor("C03", "deterministic-execution", "replica-recomputes-different-header",
